@@ -16,7 +16,10 @@ pub use fixtures::{
 #[macro_use]
 pub mod kx;
 pub mod stubs;
+pub mod world;
+pub mod spec;
 pub mod h_kernels;
+pub mod h_f1;
 
 pub mod registry;
 pub mod kf { include!("gen/kf.rs"); }
